@@ -10,6 +10,7 @@ import json, subprocess, sys, glob, os, re
 KF = '/verif/known_findings.json'
 # subject prefix -> (property, id) for fixes made by the main session
 FIXMAP = [
+ ("fix: xpcall/PCall with a handler contains a registry overflow", ("C05", "F-ERR-REGOVF")),
  ("fix: table constructor flushed stale", ("C01", "F-CMP1")),
  ("fix: patchCode treated the SETLIST extension word", ("C07", "F-CMP3")),
  ("fix: constants 0 and -0 shared", ("C01", "F-K0")),
